@@ -20,6 +20,7 @@ RULE = (
     "duration multiple or not of the period x numrec {1,2,3} x period, and for each scenario EVERY file boundary as restart point; non-trivial = a restart "
     "after which at least one particle is released AND at least one particle has died before the restart; lattice points distinct by construction"
 )
+RULE += " Beyond the lattice (chosen scenarios, not enumerated): a cohort that dies out completely before a late release; the known finding is recognised only by the exact outcome it explains."
 ASSUMPTIONS = [
     "diffusion off (the statement's condition); float64 output so that 'up to output precision' is 1e-9",
     "the restart is configured as documented: same numrec, file name continuing the numbering, all state variables listed",
